@@ -321,7 +321,8 @@ def generate(model: Model):
         mod, tree = _fresh("_merge")
         for cdef in (x for x in tree.body if isinstance(x, ast.ClassDef) and x.name == "BroadcastJoin"):
             for fn in (x for x in cdef.body if isinstance(x, ast.FunctionDef) and x.name == "broadcast_side"):
-                yield "mutant", "revert:broadcast-side-rederived", "R10g", mod.rel, _splice(mod.source, fn, "_broadcast_side_unused = None")
+                s_, e_ = _span(mod.source, cdef)
+                yield "mutant", "revert:broadcast-side-rederived", "R10g", mod.rel, mod.source[:s_] + mod.source[s_:e_].replace("def broadcast_side(self)", "def _broadcast_side_disabled(self)", 1) + mod.source[e_:]
             for fn in (x for x in cdef.body if isinstance(x, ast.FunctionDef) and x.name == "_divisions"):
                 for r_ in (x for x in ast.walk(fn) if isinstance(x, ast.Return)):
                     yield "mutant", "revert:broadcast-join-copies-divisions", "R06j", mod.rel, _splice(mod.source, r_.value, "other.divisions")
